@@ -129,7 +129,8 @@ Definition k_silence (tr : list event) : bool := k_silence_n 0 0 tr.
 
 (** * K4: refusals.  [m] = successful Adds minus successful Removes so far;
       [rmp] = a Remove of the first goroutine is in progress on a managed name
-      (it will succeed).  Add succeeds iff the name is not managed, Remove and
+      (it will succeed).  Add succeeds iff the name is not managed (and never with
+      invalid arguments, whatever the state of the name), Remove and
       Reconnect succeed iff it is; a call of the second goroutine, issued while
       that Remove is in progress, is judged as if it came after it. *)
 
@@ -149,6 +150,7 @@ Fixpoint k_refuse_n (m : nat) (rmp : bool) (tr : list event) : bool :=
           Bool.eqb ok (negb (Nat.eqb meff 0)) && k_refuse_n (if ok then pred m else m) rmp tr'
       | XReturned KReconnect ok =>
           Bool.eqb ok (negb (Nat.eqb meff 0)) && k_refuse_n m rmp tr'
+      | EAddInvalid ok => negb ok && k_refuse_n m rmp tr'
       | _ => k_refuse_n m rmp tr'
       end
   end.
